@@ -820,6 +820,16 @@ attrsLoop:
 	return cleanAttrs
 }
 
+// hasOpenTrailingEscape reports whether s ends in an odd number of
+// backslashes, i.e. in an escape that has nothing left to escape.
+func hasOpenTrailingEscape(s string) bool {
+	n := 0
+	for i := len(s) - 1; i >= 0 && s[i] == '\\'; i-- {
+		n++
+	}
+	return n%2 == 1
+}
+
 func (p *Policy) sanitizeStyles(attr html.Attribute, elementName string) html.Attribute {
 	sps := p.elsAndStyles[elementName]
 	if len(sps) == 0 {
@@ -851,6 +861,14 @@ func (p *Policy) sanitizeStyles(attr html.Attribute, elementName string) html.At
 
 decLoop:
 	for _, dec := range decs {
+		// A value that ends in a lone backslash (an unfinished escape, left
+		// behind for instance when the parser trims the space of a trailing
+		// "\ ") cannot be written back: the backslash would escape the "; "
+		// that follows it in the rebuilt attribute and merge two declarations
+		// into one that no matcher ever saw.
+		if hasOpenTrailingEscape(dec.Value) {
+			continue
+		}
 		tempProperty := strings.ToLower(dec.Property)
 		tempValue := removeUnicode(strings.ToLower(dec.Value))
 		for _, i := range prefixes {
